@@ -54,6 +54,7 @@ REQUIRED_MONITORS = [
     "step_processor_vs_model",
     "step_anneal_vs_model",
     "reported_cost_vs_tree",
+    "reported:hyper",
 ]
 SHARD_TIMEOUT = {"quick": 400, "thorough": 3600}
 
@@ -601,6 +602,28 @@ def execute_reported(rep, case):
             path2 = opt(inputs, output, sd)
             con2 = opt._cache[h]
             observations.append(("ReusableRandomGreedyOptimizer (cached) stored score vs returned path", con2["score"], "path", path2))
+        elif which == "hyper":
+            import random as _random
+
+            import cotengra
+
+            _random.seed(seed)  # trial wrappers draw from the global generator
+            post = case.get("post", "none")
+            kw = {}
+            if post == "reconf":
+                kw["reconf_opts"] = {"subtree_size": 4, "maxiter": 3}
+            elif post == "anneal":
+                kw["simulated_annealing_opts"] = {"tsteps": 3, "numiter": 4, "tstart": 2.0, "seed": seed}
+            opt = cotengra.HyperOptimizer(
+                methods=["greedy"], max_repeats=max(2, reps), parallel=False, optlib="random", seed=seed, minimize="flops",
+                progbar=False, on_trial_error="raise", **kw,
+            )
+            if case.get("via") == "call":
+                path = opt(inputs, output, sd)
+            else:
+                path = opt.search(inputs, output, sd).get_path()
+            observations.append((f"HyperOptimizer({post}).best['flops'] vs returned path", math.log10(opt.best["flops"]), "path", path))
+            observations.append((f"HyperOptimizer({post}).best['flops'] vs opt.path", math.log10(opt.best["flops"]), "path", opt.path))
         else:
             raise ValueError(which)
     except Exception as e:
@@ -744,7 +767,7 @@ def gen_step_case(rng, cs, tier):
 def gen_reported_case(rng, cs, tier):
     cap = rng.choice([10**4, 10**6, 10**9])
     net = gen_net(rng, 2, 10, cap)
-    which = rng.choice(["rg", "rg", "rg_search", "track", "track", "reusable"])
+    which = rng.choice(["rg", "rg", "rg_search", "track", "track", "reusable", "hyper", "hyper"])
     # simplify=False is documented as valid only when "the input indices are already in a
     # simplified form": no repeated index inside a tensor, no index summed on a single tensor
     simplify = rng.random() < 0.7 or not already_simplified(net)
@@ -766,6 +789,9 @@ def gen_reported_case(rng, cs, tier):
             case["temperature"] = rng.choice([0.0, 0.01, 1.0])
     if which == "reusable":
         case["via"] = rng.choice(["search", "call"])
+    if which == "hyper":
+        case["via"] = rng.choice(["search", "call"])
+        case["post"] = rng.choice(["none", "reconf", "anneal", "anneal"])
     return case
 
 
